@@ -85,6 +85,7 @@ InitConn == [cl     |-> "new",    \* "new"|"queued"|"cancelled"|"open"|"gone"|"r
              behave |-> TRUE,     \* well-behaved so far
              half   |-> FALSE,    \* client closed its write side (truncation)
              junk   |-> FALSE,    \* client sent garbage
+             pre    |-> FALSE,    \* client sent a strict prefix of the HTTP/2 preface and nothing else (so far)
              herr   |-> FALSE,    \* a handler of this connection returned an error
              sc     |-> "none",   \* server side: "none"|"making"|"tls"|"sniff"|"h1"|"h2"|"closed"|"dropped"
              told   |-> 0,        \* graceful_shutdown() calls on this connection
@@ -136,17 +137,22 @@ Rec(a, i, k, p, ok) == [a |-> a, c |-> i, k |-> k, p |-> p, ok |-> ok, ns |-> FA
 -----------------------------------------------------------------------------
 (* ENVIRONMENT: clients, gates, signal *)
 
+\* A peer of a TLS listener that has not started its handshake (silent) is an idle open connection: at the
+\* signal it must be told and close.  It misbehaves only once it sends garbage (Garbage sets behave FALSE).
+\* ENVIRONMENT: hyper's HTTP/2 server keeps a connection whose handshake has not completed when it is told
+\* (close_pending), so under the h2-only protocol nothing is demanded of it.
+PlainBehaves(plain) == ~plain \/ cfg.proto # "h2"
+
 Connect(i, kind, plain) ==
   /\ c[i].cl = "new" /\ listener = "up"
   /\ \A j \in Conn : j < i => c[j].cl # "new"            \* connections are used in order (symmetry breaking)
-  /\ (plain => cfg.tls /\ nfaults < MaxFaults)
+  /\ (plain => cfg.tls)
   /\ IF srv = "running"
-     THEN /\ c' = [c EXCEPT ![i].cl = "queued", ![i].kind = kind, ![i].plain = plain, ![i].behave = ~plain]
+     THEN /\ c' = [c EXCEPT ![i].cl = "queued", ![i].kind = kind, ![i].plain = plain, ![i].behave = PlainBehaves(plain)]
           /\ backlog' = Append(backlog, i)
-     ELSE /\ c' = [c EXCEPT ![i].cl = "refused", ![i].kind = kind, ![i].plain = plain, ![i].behave = ~plain]
+     ELSE /\ c' = [c EXCEPT ![i].cl = "refused", ![i].kind = kind, ![i].plain = plain, ![i].behave = PlainBehaves(plain)]
           /\ UNCHANGED backlog
-  /\ nfaults' = IF plain THEN nfaults + 1 ELSE nfaults
-  /\ UNCHANGED <<cfg, burst, srv, cause, acc, making, mk, sigFired, watchClosed, listener, srvAtSig, oas>>
+  /\ UNCHANGED <<cfg, burst, srv, cause, acc, making, mk, sigFired, watchClosed, listener, nfaults, srvAtSig, oas>>
   /\ Env(Rec("Connect", i, 0, IF plain THEN "raw" ELSE kind, TRUE))
 
 \* FAULT: the connect future is dropped after the request was queued and before it is accepted
@@ -166,14 +172,15 @@ AbortQueued(i) ==
   /\ UNCHANGED <<cfg, burst, srv, cause, acc, making, mk, sigFired, watchClosed, listener, backlog, srvAtSig, oas>>
   /\ Env(Rec("AbortQueued", i, 0, "", TRUE))
 
-\* FAULT (auto protocol): the client sends a strict non-empty prefix of the HTTP/2 preface and nothing else;
-\* ReadVersion keeps waiting for the rest (the connection stays in "sniff") until the client goes away
+\* (auto protocol) the client sends a strict non-empty prefix of the HTTP/2 preface and nothing else, like a
+\* slow or stalled HTTP/2 client: ReadVersion keeps waiting for the rest, the connection stays in "sniff".  By
+\* itself this is not a fault: such a connection is open and idle, at the signal it must be told and close
+\* (ReadVersion::cancel).  The fault class of C09 is this followed by Disconnect / Trunc.
 Prefix(i) ==
-  /\ ClientSeesOpen(i) /\ c[i].behave /\ ~c[i].plain /\ c[i].kind = "h1" /\ cfg.proto = "auto"
-  /\ c[i].rq[1].sent = 0 /\ nfaults < MaxFaults
-  /\ c' = [c EXCEPT ![i].behave = FALSE]
-  /\ nfaults' = nfaults + 1
-  /\ UNCHANGED <<cfg, burst, srv, cause, acc, making, mk, sigFired, watchClosed, listener, backlog, srvAtSig, oas>>
+  /\ ClientSeesOpen(i) /\ c[i].behave /\ ~c[i].plain /\ c[i].kind = "h1" /\ cfg.proto = "auto" /\ ~c[i].pre
+  /\ c[i].rq[1].sent = 0
+  /\ c' = [c EXCEPT ![i].pre = TRUE]
+  /\ UNCHANGED gvars
   /\ Env(Rec("Prefix", i, 14, "", TRUE))
 
 \* a well-behaved client sends the next part of request k: head in two parts (H1, H2), then the body (B;
@@ -181,7 +188,7 @@ Prefix(i) ==
 \* is already running and waits for the end of the body).  hyper's HTTP/2 client sends the head in one
 \* piece.  Request k+1 only after response k.
 Send(i, k) ==
-  /\ ClientSeesOpen(i) /\ c[i].behave /\ ~c[i].plain
+  /\ ClientSeesOpen(i) /\ c[i].behave /\ ~c[i].plain /\ ~c[i].pre
   /\ k <= NReq(i)
   /\ c[i].rq[k].sent < 3
   /\ \A j \in Req : j < k => c[i].rq[j].st = "done"
@@ -416,8 +423,8 @@ Internal ==
   \/ \E i \in Conn : DriverTold(i) \/ TlsStep(i) \/ Sniff(i) \/ ConnFails(i) \/ H2Close(i)
   \/ \E i \in Conn, k \in Req : ReqStep(i, k)
 
-Fault(i) == CancelConnect(i) \/ Disconnect(i) \/ Trunc(i) \/ Garbage(i) \/ AbortQueued(i) \/ Prefix(i)
-            \/ (\E k \in Req : Gate(i, k, FALSE)) \/ (\E kind \in ClientKinds : Connect(i, kind, TRUE))
+Fault(i) == CancelConnect(i) \/ Disconnect(i) \/ Trunc(i) \/ Garbage(i) \/ AbortQueued(i)
+            \/ (\E k \in Req : Gate(i, k, FALSE))
 
 Environment ==
   \/ Signal \/ ListenerLost \/ (\E ok \in BOOLEAN : MakeOpen(ok))
